@@ -30,7 +30,8 @@ Notation RS := CRealS.
 
 (* 0. The regenerated tables are the ones the theorems are about: operators {X, Y} get a basis change,
       X -> H, Y -> RX(pi/2) before and its inverse after; angle rule 2c / 4k*pi + 2c; identity term with
-      one control -> PHASE(-c), several -> CPHASE(-2c), CRZ(2c) on target 0. *)
+      one control -> PHASE(-c), several -> CPHASE(-c) on the last control, controlled by the others
+      (source after fix ae252bf). *)
 Theorem C06_tables_as_proved : tables_ok ptab /\ id_tables_ok ptab.
 Proof.
   split; constructor; try reflexivity. exists 1%nat. reflexivity.
@@ -87,9 +88,10 @@ Theorem C06_exp_word_pointwise :
 Proof. exact exp_word_real_closed. Qed.
 Print Assumptions C06_exp_word_pointwise.
 
-(* 4. Identity terms: no control -> no gate and the returned phase e^{-ic};  one control q -> PHASE(-c) on q,
-      which is the controlled phase;  several controls -> CPHASE(-2c) CRZ(2c) on the hard-coded target,
-      which is the controlled phase PROVIDED the target (qubit 0) is not among the controls. *)
+(* 4. Identity terms, for EVERY control choice: no control -> no gate and the returned phase e^{-ic};  one control q ->
+      PHASE(-c) on q;  several distinct controls (any, qubit 0 included) -> one CPHASE(-c) on the last control,
+      controlled by the others.  In each case the operation is the phase e^{-ic} on the all-ones branch of the
+      controls = the controlled exp(-i c I). *)
 Theorem C06_identity_term_phase : forall u : nat -> R,
   forall (c : R) (v : bool),
     (term_gates R (ROps u) ptab [] c v None = Ok ([], c)
@@ -97,24 +99,19 @@ Theorem C06_identity_term_phase : forall u : nat -> R,
     /\ (forall q, exists gs C, term_gates R (ROps u) ptab [] c v (Some [q]) = Ok (gs, 0%R)
                                /\ interp_all RS R rid gs = Some C
                                /\ forall psi, den RS C psi = ctrl RS [q] (exp_word_real [] c) psi)
-    /\ (forall q1 q2 r, NoDup (id_target ptab :: q1 :: q2 :: r) ->
+    /\ (forall q1 q2 r, NoDup (q1 :: q2 :: r) ->
           exists gs C, term_gates R (ROps u) ptab [] c v (Some (q1 :: q2 :: r)) = Ok (gs, 0%R)
                        /\ interp_all RS R rid gs = Some C
                        /\ forall psi, den RS C psi = ctrl RS (q1 :: q2 :: r) (exp_word_real [] c) psi).
 Proof. exact (fun u => identity_term_phase_real u ptab (proj2 C06_tables_as_proved)). Qed.
 Print Assumptions C06_identity_term_phase.
 
-(* ... and REFUTED without that proviso: with qubit 0 among several controls the construction raises
-   ValueError (Gate refuses target = control) although the request is meaningful.  Witness replayed on
-   the real code by the harness (known finding C06/identity-term/multi-control-contains-qubit-0). *)
-Theorem C06_identity_term_multictrl_refuted : forall u : nat -> R,
-  exists (cs : list N) (c : R), NoDup cs /\ term_gates R (ROps u) ptab [] c false (Some cs) = Err ValueError.
-Proof.
-  intro u. exists [0%N; 1%N], 1%R. split.
-  - repeat constructor; simpl; intuition discriminate.
-  - exact (identity_multi_control_refuted R (ROps u) ptab (proj2 C06_tables_as_proved) 1%R false).
-Qed.
-Print Assumptions C06_identity_term_multictrl_refuted.
+(* The definition BEFORE fix ae252bf (CPHASE(-2c), CRZ(2c) on the hard-coded target 0), kept as-is: with qubit 0 among
+   several controls it raised ValueError although the request is meaningful (the defect this check had recorded as
+   C06/identity-term/multi-control-contains-qubit-0, now repaired in /repo). *)
+Definition ptab_asis : ptables :=
+  PTables (basis_ops ptab) (basis_tab ptab) (ang_mult_pos ptab) (ang_pi_neg ptab) (ang_mult_neg ptab)
+          (id_single ptab) [("CPHASE", (-2)%Z); ("CRZ", 2%Z)] (Some 0%N) (threshold_exp10 ptab).
 
 (* 5. Time evolution of commuting terms, eigenvector form of exp(-itH): for every operator (list of words
       on distinct qubits with real coefficients, identity term allowed), every scalar time t, every number
@@ -195,12 +192,19 @@ Example C06_model_runs :
   = "Ok H(0;N;_;F) RX(2;N;8;F) CNOT(2;0;_;F) CRZ(2;1;58;T) CNOT(2;0;_;F) RX(2;N;-8;F) H(0;N;_;F)".
 Proof. vm_compute. reflexivity. Qed.
 
-(* the witness of the refuted statement on the executable instance, and the neighbouring accepted case *)
-Example C06_multictrl_witness :
-  show_circ_phase (term_gates _ (QOps (qc 1 1000000000) (fun _ => qc 0 1)) ptab [] (qc 4 1) false (Some [0%N; 1%N])) = "Err:ValueError"
-  /\ show_circ_phase (term_gates _ (QOps (qc 1 1000000000) (fun _ => qc 0 1)) ptab [] (qc 4 1) false (Some [1%N; 2%N]))
-     = "Ok CPHASE(0;1.2;-8;F) CRZ(0;1.2;8;F) | 0".
-Proof. vm_compute. split; reflexivity. Qed.
+(* the as-is definition (before the fix) refuted, and the repaired definition on the same request *)
+Example C06_identity_term_multictrl_asis_refuted :
+  (forall (c : R) u, term_gates R (ROps u) ptab_asis [] c false (Some [0%N; 1%N]) = Err ValueError)
+  /\ show_circ_phase (term_gates _ (QOps (qc 1 1000000000) (fun _ => qc 0 1)) ptab_asis [] (qc 4 1) false (Some [0%N; 1%N])) = "Err:ValueError"
+  /\ show_circ_phase (term_gates _ (QOps (qc 1 1000000000) (fun _ => qc 0 1)) ptab_asis [] (qc 4 1) false (Some [1%N; 2%N]))
+     = "Ok CPHASE(0;1.2;-8;F) CRZ(0;1.2;8;F) | 0"
+  /\ show_circ_phase (term_gates _ (QOps (qc 1 1000000000) (fun _ => qc 0 1)) ptab [] (qc 4 1) false (Some [0%N; 1%N]))
+     = "Ok CPHASE(1;0;-4;F) | 0".
+Proof.
+  split.
+  - intros c u. apply (identity_multi_control_asis_refuted R (ROps u) ptab_asis). constructor; reflexivity.
+  - vm_compute. repeat split.
+Qed.
 
 (* exact evaluation in Q(zeta_32): the gate list of the model for Y0 X1 Z2, c = 5 pi/16 (angle 5 units of pi/8),
    control 3, denotes exactly the controlled exponential *)
